@@ -211,6 +211,13 @@ def run_pal(rec, sh, tier, seed):
         tsets += [list(p) for p in itertools.product(small[:8], repeat=3)]
     else:
         tsets = tsets[:: (3 if tier == "quick" else 1)]
+    if nc == 4 and ql == 1:
+        # exact ties of the best score at a LATER offset (target = x, q, q) followed by a target long enough to share that alignment
+        # index: the tie-break path of the alignment scan is taken and must not leave anything behind for the next target
+        for q0 in range(nc):
+            for a_ in range(nc):
+                for second in itertools.product(range(nc), repeat=3):
+                    tsets.append([(a_, q0, q0), tuple(second)])
     bins_list = (100, 10) if tier == "quick" else (100, 10, 50, 200)
     for qi, q in enumerate(queries):
         for ti, ts in enumerate(tsets):
